@@ -29,7 +29,7 @@ KEY_EARLY = "C10-hint-overshoot-before-magic"      # hint passes the end of a ti
 KEY_W1 = "C10-stablein-deferred-flushstream-drops-input"     # wrapper presents {NULL,0,0} although stable input is deferred
 KEY_W2 = "C10-reset-keeps-deferred-stable-input"             # ZSTD_CCtx_reset leaves stableIn_notConsumed set
 KEY_W3 = "C10-stablein-wrapper-partial-consumption-lost"     # a wrapper consumed the deferred input partially and recorded its private position
-KEY_W4 = "C10-stablein-wrapper-pins-null-buffer"             # a frame started by a wrapper expects the fabricated null input as the stable buffer
+KEY_W4 = "C10-stablein-wrapper-pins-null-buffer"             # (repaired by 9a6b24a) a frame started by a wrapper expected the fabricated null input as the stable buffer
 KEY_W5 = "C10-stablein-param-change-drops-deferred-input"    # the input mode was changed while stable input was deferred
 KEY_L1 = "C10-legacy-stableout-dstbuffer-wrong"              # legacy frame + ZSTD_d_stableOutBuffer: expectedOutBuffer not updated
 
@@ -110,6 +110,53 @@ def legacy_streams():
         fr = out[2]["frame"] + sk + out[0]["frame"]
         out.append(dict(frame=fr, content=one + one, parts=[(len(out[2]["frame"]), len(one)), (len(sk), 0), (len(out[0]["frame"]), len(one))],
                         magicless=False, desc="legacy-v0.7+skip2+v0.5", legacy=True))
+    return out
+
+
+def legacy_handmade(rng, n):
+    """round 3: hand-made v0.5 / v0.6 / v0.7 frames of raw blocks (the only block type of those formats that needs no entropy
+    coder): 0..6 blocks of 1 byte .. one window, the smallest legal frames (header + end mark), v0.7 with its 22-bit checksum
+    in the end mark, single-segment v0.7 headers; alone and glued to modern / skippable frames.  Real decoder only."""
+    def blk(bt, size, payload=b""):
+        return bytes([(bt << 6) | ((size >> 16) & 7), (size >> 8) & 255, size & 255]) + payload
+    out = []
+    for i in range(n):
+        ver = rng.choice([5, 6, 7])
+        nb = rng.choice([0, 0, 1, 1, 2, 3, 6])
+        sizes = [rng.choice([1, 1, 2, 3, 4, 5, 100, 1000, 4095, 4096, 4097, 20000]) for _ in range(nb)]
+        if i % 17 == 5:
+            sizes = [131072]
+        content = b"".join(rng.randbytes(z) for z in sizes)
+        body, pos = b"", 0
+        for z in sizes:
+            body += blk(1, z, content[pos:pos + z])
+            pos += z
+        end = blk(3, 0)
+        if ver == 5:
+            h = bytes([0x25, 0xb5, 0x2f, 0xfd, rng.choice([6, 7])])                    # windowLog 17 / 18
+        elif ver == 6:
+            h = bytes([0x26, 0xb5, 0x2f, 0xfd, rng.choice([5, 6])])                    # no content size, windowLog 17 / 18
+        else:
+            form = rng.choice(["win", "win-ck", "single"])
+            if form == "single" and len(content) < 256:
+                h = bytes([0x27, 0xb5, 0x2f, 0xfd, 0x20, len(content)])                # single segment, 1-byte content size
+            else:
+                ck = form == "win-ck"
+                h = bytes([0x27, 0xb5, 0x2f, 0xfd, 0x04 if ck else 0x00, rng.choice([0x38, 0x40, 0x41])])
+                if ck:
+                    h32 = (st.xxh64(content) >> 11) & ((1 << 22) - 1)
+                    end = bytes([0xC0 | (h32 >> 16), (h32 >> 8) & 255, h32 & 255])
+        f = h + body + end
+        out.append(dict(frame=f, content=content, parts=[(len(f), len(content))], magicless=False,
+                        desc="legacy-handmade-v0.%d-%s" % (ver, "+".join(map(str, sizes)) or "empty"), legacy=True))
+    # glued to other frames: the legacy decoder hands over at its frame end
+    if len(out) >= 3:
+        sk = st.skippable(b"", 1)
+        a, b, c = out[0], out[1], out[2]
+        fr = a["frame"] + sk + b["frame"] + c["frame"]
+        out.append(dict(frame=fr, content=a["content"] + b["content"] + c["content"],
+                        parts=[(len(a["frame"]), len(a["content"])), (len(sk), 0), (len(b["frame"]), len(b["content"])), (len(c["frame"]), len(c["content"]))],
+                        magicless=False, desc="legacy-handmade-multi", legacy=True))
     return out
 
 
@@ -837,10 +884,6 @@ def run_api(ctx, exe, cases, tag, maxcalls=30000):
             if key in seen:
                 continue
             seen.add(key)
-            if key == KEY_W4:          # a known shape: two reports per run are enough, the rest is counted
-                ctx.notes["known_shape_%s" % KEY_W4] = ctx.notes.get("known_shape_%s" % KEY_W4, 0) + 1
-                if ctx.notes["known_shape_%s" % KEY_W4] > 2:
-                    continue
             nviol += 1
             mtag = "nbWorkers=%d%s" % (c["params"]["nbWorkers"], ", 4 KiB jobs" if c.get("smalljob") else "") if c["params"].get("nbWorkers") else "single-threaded"
             ctx.violation(dict(rep, call=i), what="streaming API history (%s, params %s, ops %s%s): %s"
@@ -1126,7 +1169,7 @@ def run(ctx):
     streams = [s for s in streams if len(s["frame"]) > 0]
     sp = special_streams(rng)
     mult = multi_streams(rng, streams + sp, 25 if quick else 150)
-    hstreams = sp + mult + streams + legacy_streams()
+    hstreams = sp + mult + streams + legacy_streams() + legacy_handmade(random.Random(ctx.seed * 7919 + 3), 24 if quick else 150)
     hc = hint_cases(rng, hstreams, quick)
     rexe = core.build_extracted("c10model", "Extract/Extract_C10.v", "c10_driver.ml")
     hhist, hv = run_hints(ctx, tie, hexe, hc, rexe)
